@@ -344,6 +344,15 @@ pub fn wide_values() -> Vec<Value> {
 }
 
 pub fn probe_values() -> Vec<Value> {
+    let mut out = probe_values_base();
+    for s in ["\u{7f}", "a\u{7f}b", "\u{7f}\u{3bb}", "plain", "\u{80}\u{9f}"] {
+        out.push(Value::string(s));
+        out.push(Value::symbol(s.replace('\u{7f}', "x").replace('\u{80}', "y").replace('\u{9f}', "z")));
+    }
+    out
+}
+
+fn probe_values_base() -> Vec<Value> {
     use lexpr::sexp;
     let mut v = vec![
         Value::Nil,
